@@ -107,11 +107,11 @@ def rotate(content, rng):
     return out if len(out) == len(content) and out != content else None
 
 
-def execute(a, path, steps, res, drv, rng=None):
+def execute(a, path, steps, res, drv, rng=None, prelude_idents=None, prelude=None):
     """write each step's content (None = delete the file), give the file the step's mtime (recorded on the first
     run, re-applied on replay), call the real load() and judge.  `steps` entries: [kind, content, mtime_ns]; a
     mtime of None is resolved here (environment choice) and written back so that the script replays exactly"""
-    seen = set()
+    seen = set(prelude_idents or ())
     shadow = {}
     last_mtime = None
     last_valid = None       # (mtime_ns, size) of the last file that was valid
@@ -140,6 +140,8 @@ def execute(a, path, steps, res, drv, rng=None):
             mt = last_mtime = os.stat(path).st_mtime_ns
         done.append([kind, None if content is None else content.hex(), mt])
         script = {'steps': done + [[k_, (c if c is None else c.hex()), None] for k_, c, *_ in steps[len(done):]]}
+        if prelude is not None:
+            script['prelude'] = prelude.hex()
         # what json.load produces (the model's input)
         try:
             with open(path, 'r') as fp:
@@ -162,17 +164,26 @@ def execute(a, path, steps, res, drv, rng=None):
             seen |= set(parsed)
             last_valid = (mt, len(content))
         res.note('step.' + kind + ('.valid' if valid else '.kept'))
+        raised = False
         for i in sorted(seen | {'nobody'}):
-            got = a.get_authkey(i)
+            try:
+                got = a.get_authkey(i)
+            except Exception as e:
+                res.violation('C18', 'lookup-raises', 'after a %s file, get_authkey(%r) raises %r: a mapping that fails the checks is being served' % (kind, i, e), script)
+                raised = True
+                break
             want = shadow.get(i)
             want_rec = None if not want else {'secret': want['secret'], 'ident': i, 'pubchans': want['pubchans'], 'subchans': want['subchans'], 'owner': want['owner']}
             if got != want_rec:
                 res.violation('C18', 'all-or-nothing', 'after a %s file, get_authkey(%r) = %r; the last valid file says %r' % (kind, i, got, want_rec), script)
+        if raised:
+            break
         if drv is not None:
             mo = drv.ask('j.load ' + doc)
             if mo != 'ok %d' % len(a.db):
                 res.disagree('load (%s)' % kind, script, 'ok %d' % len(a.db), mo)
-                break
+                drv = None          # the rest of the history still runs on the implementation, judged by the monitor
+                continue
             bad = False
             for i in sorted(seen | {'nobody'}):
                 got = a.get_authkey(i)
@@ -183,7 +194,19 @@ def execute(a, path, steps, res, drv, rng=None):
                     bad = True
                     break
             if bad:
-                break
+                drv = None
+
+
+def load_prelude(tmp, content):
+    p2 = os.path.join(tmp, 'other-users.json')
+    with open(p2, 'wb') as f:
+        f.write(content)
+    other = JS.Authenticator(p2)
+    other.load()
+    try:
+        return sorted(json.loads(content.decode('utf-8')))
+    except Exception:
+        return []
 
 
 def run(tier, seed, drv):
@@ -247,7 +270,15 @@ def run(tier, seed, drv):
                 b = json.dumps({'alice': {'owner': 'o', 'secret': 'secret-one', 'pubchans': ['c1'], 'subchans': ['c1']}}).encode()
                 b2 = b.replace(b'secret-one', b'secret-two')
                 steps = [['valid', b, None], ['rotated', b2, None], ['truncated', b[:20], None], ['rotated', b, None], ['rotated', b2, None]]
-            execute(a, path, steps, res, drv, rng)
+            # every third history is preceded by ANOTHER Authenticator instance (another file) that loaded a valid
+            # table: nothing of it may show through this instance
+            prelude, pid = None, None
+            if k % 3 == 2:
+                pt = gen_table(rng) or {'zed': entry(rng)}
+                pt['prev-only-%d' % k] = entry(rng)
+                prelude = json.dumps(pt).encode('utf-8')
+                pid = load_prelude(tmp, prelude)
+            execute(a, path, steps, res, drv, rng, prelude_idents=pid, prelude=prelude)
             res.nontriv([[s_[0] for s_ in steps], base[:80]])
             res.sample({'steps': [(s_[0], (s_[1] or b'')[:60].decode('latin1')) for s_ in steps[:6]]}, limit=3)
     finally:
@@ -271,7 +302,9 @@ def replay(script, drv):
         if drv is not None:
             drv.ask('j.reset')
         steps = [[s_[0], None if s_[1] is None else bytes.fromhex(s_[1]), (s_[2] if len(s_) > 2 else None)] for s_ in script['steps']]
-        execute(a, path, steps, res, drv, None)
+        prelude = bytes.fromhex(script['prelude']) if script.get('prelude') else None
+        pid = load_prelude(tmp, prelude) if prelude is not None else None
+        execute(a, path, steps, res, drv, None, prelude_idents=pid, prelude=prelude)
     finally:
         import shutil
         shutil.rmtree(tmp, ignore_errors=True)
